@@ -98,3 +98,61 @@ package ugo
 //@ ensures[mirror] specOrder(token.Less, a, b) == specOrder(token.Greater, b, a)
 //@ ensures[mirror2] specOrder(token.LessEq, a, b) == specOrder(token.GreaterEq, b, a)
 //@ property C15
+
+// ---------------------------------------------------------------------------
+// C01 / C05: constant folding agrees with the VM operator semantics (the
+// same specArith / specUnary the operator methods are proved against), keeps
+// the literal's position, and never panics.
+
+//@ import "github.com/ozanh/ugo/parser"
+
+//@ func (*SimpleOptimizer).binaryopInts
+//@ params so op left right
+//@ results e ok
+//@ requires left != nil && right != nil
+//@ ensures[defined] ok ==> specArithOut(op, Int(left.Value), Int(right.Value)) == oValue
+//@ ensures[value]   ok ==> litValue(e) == specArithVal(op, Int(left.Value), Int(right.Value))
+//@ ensures[pos]     ok ==> litPos(e) == left.ValuePos && specNonNilLit(e)
+//@ cases op: token.Add, token.Sub, token.Mul, token.Quo, token.Rem, token.And, token.Or, token.Xor, token.AndNot, token.Shl, token.Shr, other
+//@ property C01 C05
+
+//@ func (*SimpleOptimizer).binaryopFloats
+//@ params so op left right
+//@ results e ok
+//@ requires left != nil && right != nil
+//@ ensures[defined] ok ==> specArithOut(op, Float(left.Value), Float(right.Value)) == oValue
+//@ ensures[value]   ok ==> litValue(e) == specArithVal(op, Float(left.Value), Float(right.Value))
+//@ ensures[pos]     ok ==> litPos(e) == left.ValuePos && specNonNilLit(e)
+//@ cases op: token.Add, token.Sub, token.Mul, token.Quo, other
+//@ property C01 C05
+
+//@ func (*SimpleOptimizer).binaryop
+//@ params so op left right
+//@ results e ok
+//@ requires specNonNilLit(left) && specNonNilLit(right)
+//@ ensures[kinds]   ok ==> litValue(left) != nil && litValue(right) != nil && specKindOf(litValue(left)) == specKindOf(litValue(right))
+//@ ensures[defined] ok && specIsNum(litValue(left)) ==> specArithOut(op, litValue(left), litValue(right)) == oValue
+//@ ensures[value]   ok && specIsNum(litValue(left)) ==> litValue(e) == specArithVal(op, litValue(left), litValue(right))
+//@ ensures[concat]  ok && !specIsNum(litValue(left)) ==> op == token.Add && specKindOf(litValue(left)) == kString && litValue(e) == Object(String(specText(litValue(left)) + specText(litValue(right))))
+//@ ensures[pos]     ok ==> litPos(e) == litPos(left) && specNonNilLit(e)
+//@ cases op: token.Add, token.Sub, token.Mul, token.Quo, token.Rem, token.And, token.Or, token.Xor, token.AndNot, token.Shl, token.Shr, other
+//@ cases left: *parser.IntLit, *parser.FloatLit, *parser.StringLit, other
+//@ cases right: *parser.IntLit, *parser.FloatLit, *parser.StringLit, other
+//@ property C01 C05
+
+//@ func (*SimpleOptimizer).unaryop
+//@ params so op expr
+//@ results e ok
+//@ requires specNonNilLit(expr)
+//@ ensures[defined] ok ==> litValue(expr) != nil && specUnaryOut(op, litValue(expr)) == oValue
+//@ ensures[value]   ok ==> litValue(e) == specUnaryVal(op, litValue(expr))
+//@ ensures[pos]     ok ==> litPos(e) == litPos(expr) && specNonNilLit(e)
+//@ property C01 C05
+
+//@ func isLiteralFalsy
+//@ params expr
+//@ results falsy ok
+//@ requires specNonNilLit(expr)
+//@ ensures[falsy] ok ==> litValue(expr) != nil && falsy == specFalsy(litValue(expr))
+//@ ensures[total] litValue(expr) != nil ==> ok
+//@ property C01
